@@ -1,8 +1,152 @@
-/- C11 — property theorems (filled below). -/
-import SkNet.Model.Topology
-import SkNet.Spec.Topology
+/-
+C11 — triangle, clique and core computations are exact, sequential or parallel.
+
+Property theorems about the model `SkNet/Model/Topology.lean` (which mirrors triangles.pyx, cliques.pyx,
+core.pyx, minheap.pyx, path/dag.py:get_dag) against the specification `SkNet/Spec/Topology.lean`.
+-/
+import SkNet.Lemmas.TopologyTriangles
+import SkNet.Lemmas.TopologyReduce
+import SkNet.Lemmas.TopologyClustering
+import Mathlib.Tactic.Ring
+import Mathlib.Tactic.FieldSimp
+import Mathlib.Algebra.Order.Field.Rat
 
 namespace SkNet.C11
 open SkNet SkNet.Topology
+
+/-! ### triangles -/
+
+/-- ★ `merge_count`: on strictly increasing slices (sorted, duplicate-free out-lists) the `while` loop of
+    `count_local_triangles_from_dag` adds to `n_triangles` the size of the intersection of the two slices
+    `indices[i:iEnd]` and `indices[j:jEnd]`. -/
+theorem merge_count (indices : List Nat) (iEnd jEnd i j acc : Nat)
+    (h1 : (sliceOf indices i iEnd).Pairwise (· < ·)) (h2 : (sliceOf indices j jEnd).Pairwise (· < ·)) :
+    mergeLoop indices iEnd jEnd i j acc =
+      acc + ((sliceOf indices i iEnd).filter (· ∈ sliceOf indices j jEnd)).length := by
+  rw [mergeLoop_eq, mergeL_eq _ _ h1 h2]
+
+example : (sliceOf [1, 2, 3, 2, 3, 9] 0 3).Pairwise (· < ·) ∧ (sliceOf [1, 2, 3, 2, 3, 9] 3 5).Pairwise (· < ·) := by
+  decide
+
+/-- `merge_count`, second clause: the loop never reads outside the two slices — replacing every other cell of
+    `indices` does not change its value. -/
+theorem merge_reads_only_slices (ix ix' : List Nat) (iEnd jEnd i j acc : Nat)
+    (h1 : sliceOf ix i iEnd = sliceOf ix' i iEnd) (h2 : sliceOf ix j jEnd = sliceOf ix' j jEnd) :
+    mergeLoop ix iEnd jEnd i j acc = mergeLoop ix' iEnd jEnd i j acc :=
+  mergeLoop_reads_slices ix ix' iEnd jEnd i j acc h1 h2
+
+example : sliceOf [1, 2, 3, 7] 0 3 = sliceOf [1, 2, 3, 8] 0 3 := by decide
+
+/-- ★ `triangles_exact` (kernel form): on the DAG that `get_dag` builds from the index order, the sequential
+    kernel returns the number of 3-cliques of the graph `adj` — for every `n` and every adjacency predicate. -/
+theorem triangles_kernel_exact (n : Nat) (adj : Nat → Nat → Bool) :
+    countFromDagSeq (getDag n adj (arange n)).indptr (getDag n adj (arange n)).indices = cliqueCount n adj 3 := by
+  rw [countFromDagSeq_indexDag, cliqueCountIn_eq]; rfl
+
+/-- ★ `triangles_exact`: `count_triangles(adjacency)` is the number of 3-cliques of the undirected graph
+    `A + Aᵀ ≠ 0` (`symEdge val`), for every square matrix of any size. -/
+theorem triangles_exact (n : Nat) (val : Nat → Nat → Rat) :
+    countTriangles n n val none = .ok (cliqueCount n (symEdge val) 3) := by
+  unfold countTriangles triangleDag
+  simp only [bne_self_eq_false, Bool.false_eq_true, if_false]
+  exact congrArg _ (triangles_kernel_exact n (symEdge val))
+
+/-- for the 0/1 matrix of a symmetric adjacency predicate the symmetrised graph is the graph itself -/
+theorem symEdge_indicator (adj : Nat → Nat → Bool) (hsym : ∀ i j, adj i j = adj j i) (i j : Nat) :
+    symEdge (fun i j => if adj i j then 1 else 0) i j = adj i j := by
+  unfold symEdge
+  simp only []
+  rw [hsym j i]
+  by_cases h : adj i j = true
+  · simp only [h, if_true]
+    have : (1 + 1 : Rat) ≠ 0 := by norm_num
+    simp [this]
+  · simp [h]
+
+/-- `triangles_exact` for an undirected graph given by its symmetric adjacency predicate -/
+theorem triangles_exact_undirected (n : Nat) (adj : Nat → Nat → Bool) (hsym : ∀ i j, adj i j = adj j i) :
+    countTriangles n n (fun i j => if adj i j then 1 else 0) none = .ok (cliqueCount n adj 3) := by
+  rw [triangles_exact]
+  congr 2
+  funext i j
+  exact symEdge_indicator adj hsym i j
+
+example : ∀ i j, (fun i j : Nat => (i + j) % 3 != 0 && i != j) i j = (fun i j : Nat => (i + j) % 3 != 0 && i != j) j i := by
+  intro i j; simp [Nat.add_comm, bne_comm]
+
+/-- a non-square matrix is refused (`check_square`) -/
+theorem triangles_nonsquare (nRow nCol : Nat) (val : Nat → Nat → Rat) (s : Option Schedule) (h : nRow ≠ nCol) :
+    countTriangles nRow nCol val s = .error .valueError := by
+  unfold countTriangles
+  simp [h]
+
+/-! ### the parallel clause -/
+
+/-- ★ `reduction_schedule_free`: an integer `+` reduction over a `prange` has the value of the sequential loop
+    for every assignment of the iterations to threads (any number of threads, any order inside a thread) and
+    every tree in which the private copies are combined. -/
+theorem reduction_schedule_free (f : Nat → Nat) (n init : Nat) (s : Schedule) (h : s.Valid n) :
+    parReduce f s init = (List.range n).foldl (fun acc i => acc + f i) init := by
+  rw [parReduce_eq f s n init h, seqReduce_eq]
+
+/-- two schedules give the same value -/
+theorem reduction_any_two_schedules (f : Nat → Nat) (n init : Nat) (s s' : Schedule) (h : s.Valid n)
+    (h' : s'.Valid n) : parReduce f s init = parReduce f s' init := by
+  rw [parReduce_eq f s n init h, parReduce_eq f s' n init h']
+
+/-- a schedule with three threads, iterations out of order, combined as `(t2 + t0) + t1` -/
+example : Schedule.Valid ⟨[[4, 0], [1, 3, 5], [2]], .node (.node (.leaf 2) (.leaf 0)) (.leaf 1)⟩ 6 :=
+  Schedule.valid_of_validB _ _ (by decide)
+
+/-- ★ parallel = sequential: `count_triangles(adjacency, parallelize=True)` returns the sequential count under
+    every schedule of the `prange` loop (any number of threads). -/
+theorem triangles_parallel_eq_sequential (n : Nat) (val : Nat → Nat → Rat) (s : Schedule) (h : s.Valid n) :
+    countTriangles n n val (some s) = countTriangles n n val none := by
+  unfold countTriangles
+  simp only [bne_self_eq_false, Bool.false_eq_true, if_false]
+  congr 1
+  unfold countFromDagPar countFromDagSeq triangleDag
+  rw [getDag_nodes]
+  exact reduction_schedule_free _ n 0 s h
+
+/-- `count_triangles(adjacency, parallelize=True)` is the number of 3-cliques under every schedule -/
+theorem triangles_parallel_exact (n : Nat) (val : Nat → Nat → Rat) (s : Schedule) (h : s.Valid n) :
+    countTriangles n n val (some s) = .ok (cliqueCount n (symEdge val) 3) := by
+  rw [triangles_parallel_eq_sequential n val s h, triangles_exact]
+
+/-- The descriptor of the `prange` loop of triangles.pyx as pinned (regenerated from the source on every run by
+    tools/harness/c11_prange.py and re-decided by the driver) is a pure `+` reduction. -/
+theorem pinned_prange_raceFree :
+    PrangeDesc.raceFree
+      { function := "count_triangles_from_dag", loopVar := "node", reductions := [("+", "n_triangles")],
+        otherStores := [], reductionReads := 0,
+        callees := [⟨"count_local_triangles_from_dag", true, true, 0, 0⟩] } = true := by
+  decide
+
+/-! ### clustering coefficient -/
+
+/-- ★ `clustering_coefficient_eq`: `get_clustering_coefficient` is three times the number of triangles over the
+    number of connected triples (and numpy's `nan` exactly when there is no connected triple), sequentially and
+    under every schedule of the parallel loop. -/
+theorem clustering_coefficient_eq (n : Nat) (val : Nat → Nat → Rat) (s : Option Schedule)
+    (h : ∀ sch, s = some sch → sch.Valid n) :
+    clusteringCoefficient n n val s = .ok (clusteringSpec n (symEdge val)) := by
+  have ht : countTriangles n n val s = .ok (cliqueCount n (symEdge val) 3) := by
+    cases s with
+    | none => exact triangles_exact n val
+    | some sch => exact triangles_parallel_exact n val sch (h sch rfl)
+  unfold clusteringCoefficient clusteringSpec
+  rw [ht, twiceEdgePairs_eq]
+  simp only [bind, Except.bind, pure, Except.pure]
+  by_cases h0 : tripleCount n (symEdge val) = 0
+  · simp [h0]
+  · have h2 : 2 * tripleCount n (symEdge val) ≠ 0 := by omega
+    simp only [h2, h0, if_false]
+    congr 2
+    have hq : (tripleCount n (symEdge val) : Rat) ≠ 0 := by exact_mod_cast h0
+    push_cast
+    field_simp
+
+example : ∀ sch, (none : Option Schedule) = some sch → sch.Valid 5 := by intro sch h; cases h
 
 end SkNet.C11
